@@ -2059,3 +2059,96 @@ pub fn f_type(thorough: bool) -> Vec<Case> {
     }
     v
 }
+
+/// compound statements (with odd spacing in their nested blocks) under a directive, for range exploration; and require
+/// groups inside ignore regions that span several groups
+pub fn f_ign_compound() -> Vec<Case> {
+    let mut v = Vec::new();
+    let stmts = [
+        "function  f( a )\n\treturn   a  ,  b\nend",
+        "do\n\tlocal   q  =  1\n\tg(  1,2  )\nend",
+        "while  a  do\n\tx   =   1\nend",
+        "if  a  then\n\tx   =   1\nelse\n\ty   =   2\nend",
+        "local  t = {\n\tf = function( )\n\t\treturn   1\n\tend,\n}",
+        "for  i=1,2  do\n\th(  i  )\nend",
+    ];
+    for st in stmts {
+        for dir in ["-- stylua: ignore", "--[[ stylua: ignore ]]"] {
+            for (pre, post) in [("", ""), ("local   p  =  1\n", "q   =   2\n"), ("do\n", "end\n")] {
+                let mut text = String::from(pre);
+                text.push_str(dir);
+                text.push('\n');
+                let a = text.len();
+                text.push_str(st);
+                let b = text.len();
+                text.push('\n');
+                text.push_str(post);
+                let mut c = case("F-IGN", Dial::Core, text.clone());
+                c.meta.ignored = vec![(a, b)];
+                c.meta.comments = 1;
+                v.push(c);
+            }
+        }
+        // region form
+        let mut text = String::from("-- stylua: ignore start\n");
+        let a = text.len();
+        text.push_str(st);
+        let b = text.len();
+        text.push_str("\n-- stylua: ignore end\nlocal   z  =  3\n");
+        let mut c = case("F-IGN", Dial::Core, text);
+        c.meta.ignored = vec![(a, b)];
+        c.meta.comments = 2;
+        v.push(c);
+    }
+    v
+}
+
+/// require groups and ignore regions spanning several groups (sort_requires on)
+pub fn f_ign_requires() -> Vec<Case> {
+    let mut v = Vec::new();
+    let groups: [&[&str]; 3] = [
+        &["local c = require(\"c\")", "local b   =   require( \"b\" )"],
+        &["local Delta = require(\"Delta\")", "local Beta = require(\"Beta\")"],
+        &["local z = require(\"z\")", "local y = require(\"y\")"],
+    ];
+    // region start before statement (gi, si), region end before statement (gj, sj) or never
+    let mut positions = vec![];
+    for (gi, g) in groups.iter().enumerate() {
+        for si in 0..g.len() {
+            positions.push((gi, si));
+        }
+    }
+    for (pi, start) in positions.iter().enumerate() {
+        for end in positions.iter().skip(pi + 1).map(Some).chain(std::iter::once(None)) {
+            let mut text = String::new();
+            let mut ignored = vec![];
+            let mut inside = false;
+            for (gi, g) in groups.iter().enumerate() {
+                if gi > 0 {
+                    text.push('\n');
+                }
+                for (si, st) in g.iter().enumerate() {
+                    if (gi, si) == *start {
+                        text.push_str("-- stylua: ignore start\n");
+                        inside = true;
+                    }
+                    if Some(&(gi, si)) == end {
+                        text.push_str("-- stylua: ignore end\n");
+                        inside = false;
+                    }
+                    let a = text.len();
+                    text.push_str(st);
+                    if inside {
+                        ignored.push((a, text.len()));
+                    }
+                    text.push('\n');
+                }
+            }
+            let mut c = case("F-IGN", Dial::Core, text);
+            c.meta.ignored = ignored;
+            c.meta.comments = 2;
+            v.push(c);
+        }
+    }
+    v
+}
